@@ -138,11 +138,13 @@ def run_bdd(rep, tier, pid):
 
 def run_c16(rep, tier):
     rep.assumptions += ['histories decided: bottom-up construction of two arbitrary functions through the public constructor followed by &, |, ^, ~, restrict, all nodes kept alive',
-                        'dropping references / garbage collection between steps: NOT decided by the solver (CPython runtime behaviour); a native stress sequence with gc.collect() is run as a cross-check only',
+                        'creation/drop/collect histories of any length: covered by ONE INDUCTIVE STEP of the unique table from an arbitrary pool (each node live or collected) satisfying the representation invariant; collection enters only through the WeakSet contract "a collected node is absent from every parent set" (documented weakref semantics; CPython finalisation order and a collection in the middle of find_isomorph\'s iteration are not modelled)',
+                        'a native build/drop/gc stress sequence is run as a cross-check of that contract only',
                         'functions over more than 3 (4 for unary ops) variables are outside']
     rep.cov['explanation'] = ('BDDNode/BDDNonTerminalNode/BDDTerminalNode.__new__, find_isomorph, __reset__, apply/compute, __invert__, restrict and the OBDD wrappers executed symbolically with the truth-table bits of two '
                               'functions as unknowns: one merged run covers every ordered pair; z3 proves identical root <=> equal tables (and OBDD.__eq__ agrees), and that no two live non-terminals share (var, low, high)')
     run_bdd(rep, tier, 'C16')
+    run_step(rep, tier)
     gc_stress(rep, 300 if tier == 'quick' else 3000)
 
 
@@ -371,3 +373,88 @@ def run_c18(rep, tier):
         rep.violation('native case: %s' % (pr,), write_replay('C18', body))
     rep.obligation('native exploration (%d inputs)' % nexp, 'unsat' if not probs else 'sat', 0, 0,
                    dict(native_exploration=nexp, problems=len(probs), sample=str(texts[5:8])))
+
+
+STEP_REPLAY = '''
+import gc
+from pyModelChecking.BDD.BDD import BDDNode, BDDNonTerminalNode, BDDTerminalNode
+k = %(k)d; m = %(m)r
+VARS = ['a', 'b', 'c']
+val = lambda nm: bool(m.get(nm, False))
+def code(prefix, n):
+    nb = max(1, (n - 1).bit_length())
+    return min(sum((1 << i) for i in range(nb) if val(prefix + str(i))), n - 1)
+T = [BDDNode(False), BDDNode(True)]
+pool = {}
+def obj(idx):
+    return T[idx] if idx < 2 else pool.get(idx - 2)
+spec = {}
+for i in range(k):
+    spec[i] = (val('live%%d' %% i), VARS[code('v%%d_' %% i, 3)], code('lo%%d_' %% i, 2 + i), code('hi%%d_' %% i, 2 + i))
+reachable = True
+for i in range(k):
+    lv, v, lo, hi = spec[i]
+    if not lv: continue
+    l, h = obj(lo), obj(hi)
+    if l is None or h is None:
+        reachable = False; break
+    n = BDDNode(v, l, h)
+    if not isinstance(n, BDDNonTerminalNode) or n.var != v or n.low is not l or n.high is not h:
+        reachable = False; break
+    pool[i] = n
+gc.collect()
+if not reachable:
+    print('the pre-state of the solver model is not constructible through the public constructor'); sys.exit(0)
+av, al, ah = VARS[code('av_', 3)], obj(code('al_', 2 + k)), obj(code('ah_', 2 + k))
+if al is None or ah is None:
+    print('arguments are not live nodes'); sys.exit(0)
+before = {i: (n.var, n.low, n.high) for i, n in pool.items()}
+r = BDDNonTerminalNode(av, al, ah)
+bad = []
+match = [n for n in pool.values() if n.var == av and n.low is al and n.high is ah]
+if al is ah:
+    if r is not al: bad.append('low is high but the result is not low')
+elif match:
+    if r is not match[0]: bad.append('a live node with this (var, low, high) exists but another node was returned')
+else:
+    if any(r is n for n in pool.values()) or r in T: bad.append('no isomorphic node exists but an old node was returned')
+    elif not (r.var == av and r.low is al and r.high is ah): bad.append('new node has other fields')
+    elif r not in al.f_low or r not in ah.f_high: bad.append('new node is not registered in the parent sets of its children (low.f_low: %%s, high.f_high: %%s)' %% (r in al.f_low, r in ah.f_high))
+live = list(pool.values()) + ([r] if isinstance(r, BDDNonTerminalNode) else [])
+seen = {}
+for n in live:
+    key = (n.var, id(n.low), id(n.high))
+    if key in seen and seen[key] is not n: bad.append('two live nodes share (var, low, high) = %%s' %% (key,))
+    seen[key] = n
+if {i: (n.var, n.low, n.high) for i, n in pool.items()} != before: bad.append('an existing node was modified')
+print('pool', spec, 'call', (av, al, ah), '->', r)
+if bad:
+    print('VIOLATION of C16:', bad); sys.exit(1)
+print('no violation on this input')
+'''
+
+
+def run_step(rep, tier):
+    ks = (2, 3, 4) if tier == 'quick' else (2, 3, 4, 5, 6)
+    for t, st, r, secs in pmap(bdd.unique_table_step, [(k,) for k in ks]):
+        key = 'unique-table inductive step, pool of %d nodes' % t[0]
+        if st != 'ok':
+            rep.inconclusive('%s: %s' % (key, r))
+            rep.obligation(key, 'error')
+            continue
+        rep.encoded_add(r['encoded'])
+        rep.obligation(key, r['verdict'], r['solver_s'], r['queries'],
+                       dict(obligation='from ANY pool of <=%d nodes (each live or collected) satisfying the representation invariant, BDDNonTerminalNode(var, low, high) with arbitrary live arguments returns low / the isomorphic live node / a fresh registered node, touches nothing else, and the invariant holds again' % t[0],
+                            unknowns=r['unknowns'], verdict=r['verdict'], gates=r['gates'], twins=dict(allocates=r['twin'], reuses=r['twin_reuse'], invariant_satisfiable=r['twin_inv'])))
+        for tw in ('twin', 'twin_reuse', 'twin_inv'):
+            if r[tw] != 'sat':
+                rep.inconclusive('%s: vacuity twin %s is %s' % (key, tw, r[tw]))
+        if r['verdict'] == 'sat':
+            path = write_replay('C16', STEP_REPLAY % dict(k=t[0], m=r['model']))
+            ok, out = run_replay(path)
+            if ok:
+                rep.violation('%s: %s' % (key, out.strip().splitlines()[-2:]), path)
+            else:
+                rep.inconclusive('%s: the solver\'s pre-state does not reproduce natively (invariant too weak or encoding wrong): %s' % (key, out[-200:]))
+        elif r['verdict'] != 'unsat':
+            rep.inconclusive('%s: %s' % (key, r['verdict']))
